@@ -254,6 +254,11 @@ func TestVerifC16(t *testing.T) {
 		ctx.Assume("the KV store is not an index: namespace oracle (3) is evaluated on vector indexes and their graph data only; _sys_auth::* keys are covered by oracles (1) and (2)")
 		ctx.Assume("fixture indexes have no memory/decay configuration, so searches have no bookkeeping side effects")
 
+		// the child is a deployed server: its command line carries the root token (--auth-token)
+		savedArgs := os.Args
+		defer func() { os.Args = savedArgs }()
+		os.Args = append(append([]string(nil), savedArgs...), "--auth-token", c16Root)
+
 		c16Probes(ctx, routes, words)
 
 		// ---- sweep: every parsed route x every token class, hostile instantiations ----------
@@ -376,6 +381,8 @@ func TestVerifC16(t *testing.T) {
 				}
 			}
 		})
+
+		c16MethodGroups(ctx, routes, words)
 
 		c16AuthGroups(ctx)
 	})
